@@ -86,7 +86,7 @@ func c06Configs() []sanCfg {
 }
 
 func c06Tokens() []string {
-	return []string{"`", "a", "z", "{", "@", "A", "Z", "[", "/", "0", "9", ":", "_", "-", ".", " ", "é", "€", "😀", "�", "\xff", "\xe2\x82"}
+	return []string{"`", "a", "z", "{", "@", "A", "Z", "[", "/", "0", "9", ":", "_", "-", ".", " ", "é", "€", "😀", "�", "\xff", "\xe2\x82", "\xef", "\xef\xbf", "\xf0\x9f"}
 }
 
 // sanCheck compares one sanitizer call with the reference and the property's clauses.
